@@ -21,6 +21,8 @@ from fractions import Fraction as F
 
 import common
 from common import close, close_list, err_kind
+from props import c20_calls as calls
+from props import c20_sig as sig
 
 # Exact number transport (common.enc / common.dec) with fast paths: the long-run stream moves hundreds of
 # thousands of samples.  Same encodings as common.enc (int, or "p/q" in lowest terms; floats at their exact
@@ -80,8 +82,29 @@ RULE = ("structured random cases per tool (sizes/lags 1..9 + larger, all clip li
         "or dyadic with power-of-two sizes so that the comparison stays exact, a few float-regime ones); a case is "
         "non-trivial when the input is non-empty and (clip: a sample is actually clipped or the error is raised; "
         "zcross: at least one crossing or a non-zero hysteresis/first_sign; unwrap: at least one sample changed; "
-        "others: output not identically zero); distinct = distinct JSON case")
+        "others: output not identically zero); distinct = distinct JSON case.  "
+        "CALL LAYER (harness/props/c20_calls.py, driver entries <tool>_call running the Lean ...Call models): every tool x every call "
+        "shape (each optional parameter positional / keyword / omitted - an omitted one is ABSENT from the driver request and the "
+        "model fills in the documented default of exactly that parameter -, the input by keyword), spellings Fraction / int / float / "
+        "bool / None / inf of every parameter, samples as Fraction / int / float, input kinds list / tuple / generator / iterator / "
+        "Stream / thub / endless generator with a capped read (take / islice), every strategy of maverage / accumulate / envelope by "
+        "name, alias, attribute and item access and through the dictionary default call, amdf(lag, size) positional / keyword / swapped "
+        "keywords; unwrap: steps below and above 2*pi with jumps placed in (step/2, pi], (pi, step/2] and beyond, binary floats right "
+        "at pi (Float twin of the model); clip: given limits on both sides of the default of the other one; exhaustive grid of "
+        "shapes x parameter values on fixed inputs + random ones")
 TRUSTED = [
+    "call layer: hand-written Lean models ALV/Model/C20Call.lean (Option-al parameters, defaults from the documented table Dflt.*, "
+    "strategy names / aliases / dictionary defaults); the table is tied to the source by translator harness/props/c20_sig.py "
+    "(ast -> lean/ALV/Gen/C20Defaults.lean, theorem source_signatures_are_documented by decide) and cross-checked on every run against "
+    "the ast reading and inspect.signature of the live objects (extra_checks); modelled, not verified: Python argument binding itself",
+    "call layer: pi is the double math.pi at its exact rational value (piQ) in the Rat model - comparisons of exact samples with it are "
+    "exact in Python too; with the default step 2*pi the impl computes `%` in floats (tolerance 1e-9); binary-float inputs right at pi "
+    "run through the Float instance of the same model (Float.floor-based `%` instead of fmod: tolerance 1e-9, decisions bit-exact)",
+    "call layer: inf / -inf parameters are sent to the model as a rational beyond every sample (theorems clip_limit_beyond_samples, "
+    "zcross_all_inside, unwrap_identity: every such value gives the same output); an endless input is read through take / islice and the "
+    "model gets the samples read (all tools are causal; laziness itself is property C02)",
+    "envelope call layer: Float twin, the one-pole design lowpass.pole is ALV.C13.lowpassPole (verified by property C13) evaluated at the "
+    "given cutoff or at the documented default pi/512; compared with tolerance 1e-9",
     "hand-written Lean models ALV/Model/C20.lean of lazy_analysis.{maverage.*,amdf,envelope.*,clip,zcross,unwrap} and "
     "lazy_itertools.accumulate.* (modelled, not verified: collections.deque, itertools.accumulate, the generator protocol, "
     "Fraction/float arithmetic and Python's `%`)",
@@ -107,7 +130,14 @@ MANIFEST = {
              "outputs differ by integer multiples of step, identity without large jumps, adjacent jump <= max(max_delta, step/2). "
              "The Rat instances executed by the driver are proved to be instances of these theorems; tied to /repo by a "
              "differential run on Fractions (exact regime / 1e-9 float regime) plus a structural comparison of the ZFilter "
-             "coefficient lists."),
+             "coefficient lists.  Call layer: Lean ...Call models with Option-al parameters whose defaults are the documented table "
+             "(unwrap max_delta = pi and step = 2 pi independently, clip -1 / 1 with None = no limit, zcross 0 / 0, zero = 0, cutoff = "
+             "pi/512, dictionary defaults deque / itertools / rms, aliases); theorems relate every call with omitted parameters to the "
+             "fully specified function and its defining formula (unwrapCall_eq, unwrapCall_step_only_identity, unwrapCall_clauses, "
+             "clipCall_defaults, zcrossCall_default_spec, maverageCall_eq_spec, accumulateCall_eq_spec, amdfCall_eq_spec, "
+             "envelopeCall_default), None -> TypeError where Python rejects it, insensitivity theorems (max_delta below step/2, limits "
+             "beyond all samples); the table equals the signatures read from the source with ast (decide theorem over a generated file); "
+             "the tie runs every tool x call shape x spelling x input kind x strategy name."),
     "note": ("Trusted: Lean kernel, propext/Classical.choice/Quot.sound, the Python harness; the filter-built strategies are "
              "modelled by a self-contained direct-form loop (the generated LinearFilter loop is property C04); the low-pass design "
              "used by envelope is property C13; sqrt of envelope.rms is compared in floats."),
@@ -586,6 +616,9 @@ def generate(rng, tier, scale=1):
             for _ in range(6):
                 cases.append(gen_clip(rng, tier, combo))
     cases.extend(gen_long(rng, tier))        # same amount in the search's fresh batch (scale 4), new inputs
+    if scale == 1:
+        cases.extend(calls.exhaustive())
+    cases.extend(calls.generate(rng, tier))  # the call layer: shapes x spellings x input kinds x strategies
     wsum = sum(w for _, w in GENS)
     for g, w in GENS:
         for _ in range(total * w // wsum):
@@ -624,9 +657,15 @@ def _lowpass(c):
     return f
 
 
+def _is_call(c):
+    return c["entry"].endswith("_call")
+
+
 def impl(c):
     import audiolazy as al
     e = c["entry"]
+    if _is_call(c):
+        return calls.impl(c)
     xs = _vals(c)
     if e == "maverage":
         zero = dec(c["zero"])
@@ -699,6 +738,8 @@ def impl(c):
 
 
 def request(c):
+    if _is_call(c):
+        return calls.request(c)
     r = {k: v for k, v in c.items() if k not in ("ints", "floats", "route", "zmode", "cutoff", "lp", "stream")}
     if c["entry"] == "envelope":
         f = _lowpass(c)
@@ -787,6 +828,8 @@ def _diff_index(got, want, tol):
 
 
 def compare(c, io, drv):
+    if _is_call(c):
+        return calls.compare(c, io, drv, _cmp, TOL)
     out = []
     e = c["entry"]
     tol = 0 if exact_regime(c) else TOL
@@ -859,6 +902,8 @@ def _list(io, k):
 
 
 def nontrivial(c, io):
+    if _is_call(c):
+        return calls.nontrivial(c, io)
     if c["entry"] == "coeffs":
         return True
     if not c["xs"]:
@@ -903,6 +948,9 @@ def _len_bucket(n):
 def tally(eng, c, io):
     e = c["entry"]
     eng.count("entry", e)
+    if _is_call(c):
+        eng.count("len", _len_bucket(len(c["xs"])))
+        return calls.tally(eng, c, io)
     n = len(c["xs"])
     eng.count("len", _len_bucket(n))
     if n > LONG:
@@ -988,6 +1036,8 @@ def _simpler(v):
 
 
 def _in_domain(c):
+    if _is_call(c):
+        return True
     """the quantifier of the property (see ASSUMPTIONS); shrinking / neighbour search stay inside it"""
     if c["entry"] == "amdf" and c["lag"] == 0 and dec(c["zero"]) != 0:
         return False     # 1 - z**0 is the zero polynomial: LinearFilter then yields `zero` itself (C04's corner)
@@ -1001,10 +1051,14 @@ def _in_domain(c):
 
 
 def shrink(c):
+    if _is_call(c):
+        return list(calls.shrink(c))
     return [d for d in _shrink(c) if _in_domain(d)]
 
 
 def neighbours(c):
+    if _is_call(c):
+        return list(calls.neighbours(c))
     return [d for d in _neighbours(c) if _in_domain(d)]
 
 
@@ -1161,6 +1215,8 @@ def _neighbours(c):
 def classify(c, io, drv):
     """operation + failing condition + error kind"""
     e = c["entry"]
+    if _is_call(c):
+        e = calls.describe(c)
     empty = "empty-input" if not c["xs"] else "nonempty-input"
     errs = sorted("%s:%s" % (k, v["err"]) for k, v in io.items() if isinstance(v, dict) and "err" in v)
     lean_err = isinstance(drv.get("model"), dict)
@@ -1170,3 +1226,77 @@ def classify(c, io, drv):
     probs = compare(c, io, drv)
     names = sorted({p[1].split(":")[0].split(" vs ")[0] for p in probs})
     return "%s:%s:wrong-values[%s]" % (e, empty, ",".join(names)[:120])
+
+
+# ----------------------------------------------------------------------------------------------
+# the call layer: translator of the signatures + structural checks
+# ----------------------------------------------------------------------------------------------
+def regenerate(eng=None):
+    """rewrite lean/ALV/Gen/C20Defaults.lean from the source signatures (ast) of the repo under test; the theorem
+    ALV.Props.C20.source_signatures_are_documented compares it with the documented table of the model"""
+    return sig.regenerate(eng)
+
+
+def _documented():
+    r = common.Driver().batch([{"id": ID, "entry": "defaults"}])[0]
+    return r["ok"]
+
+
+def extra_checks(eng):
+    """structural ties of the call layer: the defaults the Lean `...Call` models use == the signatures in the source
+    (ast) == the signatures of the live objects (inspect); strategy names / aliases / dictionary defaults"""
+    import inspect
+    import audiolazy as al
+    doc = _documented()
+    pi = F(math.pi)
+    ok = dec(doc["pi"]) == pi and dec(doc["pi_float"]) == pi
+    yield ("call-layer: the model's pi is the double math.pi", ok, "driver pi=%s math.pi=%s" % (doc["pi"], enc(pi)))
+    want = [(s["fn"], [(p["name"], p.get("default", "<required>")) for p in s["params"]]) for s in doc["signatures"]]
+    # (1) source text, read with ast
+    try:
+        sigs, strat = sig.read_source()
+        got = [(q, [(n, "<required>" if d is None else (lambda v: "None" if v is None else enc(v))(sig.dvalue(d, pi)))
+                    for n, d in ps]) for q, ps in sigs]
+        diff = [(g, w) for g, w in zip(got, want) if g != w] or ([("length", len(got), len(want))] if len(got) != len(want) else [])
+        yield ("call-layer: source signatures (ast) = documented defaults table of the Lean model", not diff,
+               "source %s / documented %s" % (diff[0][0], diff[0][1]) if diff else "")
+        wstr = [(d["dict"], d["strategies"]) for d in doc["strategies"]]
+        yield ("call-layer: strategy registrations (ast) = documented strategies / aliases / order", [(d, g) for d, g in strat] == wstr,
+               "source %s / documented %s" % (strat, wstr))
+    except Exception as ex:   # noqa
+        yield ("call-layer: source signatures (ast) = documented defaults table of the Lean model", False,
+               "%s: %s" % (type(ex).__name__, ex))
+    # (2) the live objects
+    objs = {"zcross": lambda: al.zcross, "envelope.rms": lambda: al.envelope["rms"], "envelope.abs": lambda: al.envelope["abs"],
+            "envelope.squared": lambda: al.envelope["squared"], "maverage.deque": lambda: al.maverage["deque"],
+            "maverage.deque.maverage_filter": lambda: al.maverage["deque"](2), "maverage.recursive": lambda: al.maverage["recursive"],
+            "maverage.fir": lambda: al.maverage["fir"], "clip": lambda: al.clip, "unwrap": lambda: al.unwrap, "amdf": lambda: al.amdf,
+            "amdf.amdf_filter": lambda: al.amdf(1, 2), "accumulate.func": lambda: al.accumulate["func"],
+            "LinearFilter.__call__": lambda: al.LinearFilter.__call__}
+    bad = []
+    for fn, params in want:
+        try:
+            ps = inspect.signature(objs[fn]()).parameters
+            got = [(n, "<required>" if p.default is inspect.Parameter.empty else "None" if p.default is None else enc(p.default))
+                   for n, p in ps.items()]
+        except Exception as ex:   # noqa
+            got = "%s: %s" % (type(ex).__name__, ex)
+        if got != params:
+            bad.append("%s: live %s / documented %s" % (fn, got, params))
+    yield ("call-layer: live signatures (inspect) = documented defaults table of the Lean model", not bad, "; ".join(bad)[:600])
+    bad = []
+    for d in doc["strategies"]:
+        try:
+            sd = getattr(al, d["dict"])
+            keys = [list(k) for k in sd.keys()]
+            if keys != d["strategies"]:
+                bad.append("%s: keys %s / documented %s" % (d["dict"], keys, d["strategies"]))
+            if sd.default is not sd[d["strategies"][0][0]]:
+                bad.append("%s.default is not %s.%s" % (d["dict"], d["dict"], d["strategies"][0][0]))
+            for g in d["strategies"]:
+                for n in g:
+                    if sd[n] is not sd[g[0]] or getattr(sd, n) is not sd[g[0]]:
+                        bad.append("%s: alias %s is not %s" % (d["dict"], n, g[0]))
+        except Exception as ex:   # noqa
+            bad.append("%s: %s: %s" % (d["dict"], type(ex).__name__, ex))
+    yield ("call-layer: live strategy dictionaries = documented strategies / aliases / first is default", not bad, "; ".join(bad)[:600])
